@@ -38,6 +38,7 @@ macro_rules! dispatch {
             "C16" => driver::$f(scenarios::c16::C16, $($arg),*),
             "C14" => driver::$f(scenarios::c14::C14, $($arg),*),
             "C11" => driver::$f(scenarios::c11::C11, $($arg),*),
+            "C19" => driver::$f(scenarios::c19::C19, $($arg),*),
             other => {
                 eprintln!("HARNESS-ERROR unknown property {other}");
                 2
